@@ -263,10 +263,21 @@ class DivisionByZero(Exception):
     pass
 
 
+NAMED_SUMS = {}
+
+
+def name_sum(s):
+    """A finite sum used as a divisor is replaced by a fresh real symbol standing for its value (the
+    defining equation is kept in NAMED_SUMS but not given to the solver: a sound weakening)."""
+    v = z3.Real('sigma!%d' % (len(NAMED_SUMS) + 1))
+    NAMED_SUMS[v.get_id()] = (v, s)
+    return v
+
+
 def truediv(a, b):
     """Python / : always real.  The caller is responsible for the b != 0 obligation."""
     if isinstance(b, SumT):
-        raise Unsupported('division by a finite sum')
+        b = name_sum(b)
     if isinstance(a, SumT):
         return SumT([(truediv(c, b), lo, hi, body) for (c, lo, hi, body) in a.terms], truediv(a.rest, b))
     if isinstance(b, Cx):
